@@ -404,10 +404,10 @@ def canon_partition(df):
     unique (set iteration order of Point objects; differs from run to run on the same table):
     compare the PARTITION of the rows into trajectories - labels renamed by first appearance in
     the canonical row order (frame, x, y, remaining columns)."""
-    others = [c for c in df.columns if c != "particle"]
-    key = [c for c in ["frame", "x", "y"] if c in others] + \
-          sorted(str(c) for c in others if c not in ("frame", "x", "y"))
-    vals = [tuple(_num(df[c].values[i]) for c in key) for i in range(len(df))]
+    d = {str(c): df[c].values for c in df.columns if c != "particle"}   # labels may be non-strings
+    key = [c for c in ["frame", "x", "y"] if c in d] + \
+          sorted(c for c in d if c not in ("frame", "x", "y"))
+    vals = [tuple(_num(d[c][i]) for c in key) for i in range(len(df))]
     skey = lambda r: tuple((0, 0.0, "") if v is None else
                            ((1, v, "") if isinstance(v, float) else (2, 0.0, v)) for v in r)
     order = sorted(range(len(df)), key=lambda i: skey(vals[i]))
@@ -1134,7 +1134,8 @@ CARRY_STAGE_NAMES = ["cluster", "cluster_size", "proximity", "ep", "size_x", "si
                      "signal", "ecc", "dx", "dr", "direction"]
 CARRY_CLASH_NAMES = ["size_std", "sizes", "msize", "Size", "size_", "cluster_size",
                      "particle_old", "_old_particle", "particles", "particle_", "Particle",
-                     "frame_orig", "old_frame", "frames", "frame_", "Frame"]
+                     "frame_orig", "old_frame", "frames", "frame_", "Frame",
+                     0]                                          # a column label that is not a string
 CARRY_NUMERIC = ["size_like", "int_small", "float", "nan_float", "int32", "label_like",
                  "label_const", "frame_like"]
 CARRY_NONNUMERIC = ["str", "bool", "category", "datetime", "object_mixed", "timedelta"]
@@ -1150,7 +1151,7 @@ def gen_carry(rng, session):
     if not names:
         names = [rng.choice(CARRY_STAGE_NAMES + CARRY_CLASH_NAMES)]
     for name in dict.fromkeys(names):
-        low = name.lower()
+        low = str(name).lower()
         r = rng.random()
         if r < 0.2:
             kind = rng.choice(CARRY_NONNUMERIC)
@@ -1384,7 +1385,7 @@ def mods_stats(res, t, mods):
         res.stat("carried_column_tables")
         for name, kind, _ in m["carry"]:
             res.stat("carried_kind_%s" % kind)
-            low = name.lower()
+            low = str(name).lower()
             for key in ("size", "particle", "frame"):
                 if key in low:
                     res.stat("carried_name_contains_%s" % key)
